@@ -216,14 +216,15 @@ def corr(ctx):
             resid = (y.to(torch.complex128) - (csi * xc).to(torch.complex128)) - nz.to(torch.complex128)
             ops.append(Op("snrp 1 0", "1", nontrivial=False, info={"site": "channels:FlatFadingChannel", "config": {"mode": "pregenerated", "dtypes": tag, "max_resid": float(resid.abs().max())}}, prop_ok=ok))
     # ---- add_noise_for_snr
-    for snr in (0.0, 10.0, 17.5):
-        x = signal((2, 64), False, 2.0)
-        torch.manual_seed(seed0 + 999); y, nz = U.add_noise_for_snr(x, snr)
-        torch.manual_seed(seed0 + 999); z = torch.randn_like(x)
-        S = float(torch.mean(x ** 2))
-        want = (S / 10 ** (snr / 10)) * z ** 2
-        ok = bool(torch.allclose(nz ** 2, want, rtol=1e-5, atol=0)) and bool((y == x + nz).all())
-        ops.append(Op("snrp 1 0", "1", nontrivial=False, info={"site": "utils.snr:add_noise_for_snr", "config": {"snr_db": snr}}, prop_ok=ok))
+    for snr in (0.0, 10.0, 17.5, 30.0, 40.0, -20.0):
+        for sc in (2.0, 1e-2, 1e-3, 1e2):          # weak signals at high SNR: noise powers far below float32 eps must still be delivered
+            x = signal((2, 64), False, sc)
+            torch.manual_seed(seed0 + 999); y, nz = U.add_noise_for_snr(x, snr)
+            torch.manual_seed(seed0 + 999); z = torch.randn_like(x)
+            S = float(torch.mean(x ** 2))
+            want = (S / 10 ** (snr / 10)) * z ** 2
+            ok = bool(torch.allclose(nz ** 2, want, rtol=1e-5, atol=0)) and bool((y == x + nz).all())
+            ops.append(Op("snrp 1 0", "1", nontrivial=False, info={"site": "utils.snr:add_noise_for_snr", "config": {"snr_db": snr, "signal_scale": sc, "S": S}}, prop_ok=ok))
     ctx.extra["statistics"] = _statistics(ctx)
     return ops
 
